@@ -80,6 +80,19 @@ func (p *Parser) isStatementStartingKeyword() bool {
 	return false
 }
 
+// atStatementBoundary reports whether the parser stands where a statement may
+// end: at a semicolon, at the end of input, or at a token that starts another
+// statement (statements may follow each other without a separator).
+func (p *Parser) atStatementBoundary() bool {
+	if p.currentPos >= len(p.tokens) || p.isType(models.TokenTypeEOF) || p.isType(models.TokenTypeSemicolon) {
+		return true
+	}
+	if p.isStatementStartingKeyword() {
+		return true
+	}
+	return p.isAnyType(models.TokenTypeShow, models.TokenTypeDescribe, models.TokenTypeExplain, models.TokenTypeReplace)
+}
+
 // synchronize advances the parser past the current error to a synchronization point:
 // either past a semicolon or to a statement-starting keyword.
 func (p *Parser) synchronize() {
@@ -192,6 +205,27 @@ func (p *Parser) parseWithRecovery(tokens []token.Token) ([]ast.Statement, []err
 			if p.currentPos == stmtStartPos {
 				p.advance()
 			}
+			p.synchronize()
+		} else if !p.atStatementBoundary() {
+			// The statement parsed, but tokens that cannot start another
+			// statement follow it before any semicolon: strict parsing rejects
+			// this input at that token, so the statement is malformed as a
+			// whole. Report it once and resynchronise instead of returning its
+			// well-formed prefix as if it were a complete statement.
+			cause := p.expectedError("statement")
+			loc := p.currentLocation()
+			pe := &ParseError{
+				Msg:      cause.Error(),
+				TokenIdx: stmtStartPos,
+				Line:     loc.Line,
+				Column:   loc.Column,
+				Cause:    cause,
+			}
+			if stmtStartPos < len(tokens) {
+				pe.TokenType = tokens[stmtStartPos].Type.String()
+				pe.Literal = tokens[stmtStartPos].Literal
+			}
+			errors = append(errors, pe)
 			p.synchronize()
 		} else {
 			statements = append(statements, stmt)
